@@ -35,7 +35,7 @@ func init() {
 		Rule: "inputs = DER-looking encodings of INTEGER/ENUMERATED, BOOLEAN, OBJECT IDENTIFIER, BIT STRING, GeneralizedTime and bare tag/length headers, each followed by unrelated bytes; " +
 			"exhaustive: every content of 0..3 bytes (INTEGER, OID, BIT STRING), 0..2 bytes (BOOLEAN), every 3-byte header prefix, every first octet x every 0x82 length from a boundary set, high-tag-number headers from boundary sets, a near-valid GeneralizedTime grammar; " +
 			"sampled: longer contents and headers. Each input is given to every matching strict decoder of zcrypto encoding/asn1 (int,int32,int64,*big.Int,Enumerated,bool,ObjectIdentifier,BitString,RawValue) and cryptobyte (ReadASN1Integer into 7 types, ReadASN1Int64WithTag, ReadASN1Enum, ReadASN1Boolean, ReadASN1ObjectIdentifier, ReadASN1BitString[AsBytes], ReadASN1GeneralizedTime, ReadAnyASN1[Element]). " +
-			"non-trivial = (decoder, input) pair that was ACCEPTED, so that the re-encode comparison actually ran; pairs from enumerated spaces are distinct by construction, sampled ones are counted by hash (1 in 8 is hashed)",
+			"non-trivial = (decoder, input) pair that was ACCEPTED, so that the re-encode comparison actually ran; pairs from enumerated spaces are distinct by construction, sampled ones are counted by hash (1 in 8 is hashed; thorough 1 in 64)",
 		MinNontrivial:         100000000,
 		MinNontrivialThorough: 100000000,
 		Shards:                16,
@@ -44,7 +44,7 @@ func init() {
 		Assumptions: []string{
 			"asn1.AllowPermissiveParsing is false (set by the engine, restored afterwards)",
 			"the re-encoder paired with a reader is the Builder.AddASN1* / asn1.Marshal call of the same library for the same type; BIT STRINGs with a partial last byte read by cryptobyte are re-encoded with Builder.MarshalASN1 because AddASN1BitString documents whole bytes only",
-			"the DER-rule name in a witness key comes from an independent lenient header/content reader and only labels the violation; the verdict is the byte comparison",
+			"verdict = byte comparison of the re-encoding with the consumed bytes; in addition an accepted encoding is inspected by an independent lenient header/content reader for the forms the statement lists as rejected (non-minimal integer/length/tag/OID sub-identifier, non-zero padding bits, indefinite length) — needed for padding bits, which BitString carries through a re-encode unchanged; the same reader names the rule in witness keys",
 			"Go encoding/asn1 and golang.org/x/crypto v0.54.0 cryptobyte are observed for accept/reject only (counters xcheck_*), never for the verdict",
 		},
 	}, runC19)
@@ -69,6 +69,7 @@ type c19 struct {
 	curIn  []byte
 	xcheck bool
 	xEvery uint64 // upstream is consulted on one case in xEvery (it decides nothing)
+	hashEvery int // sampled spaces: one accepted case in hashEvery is hashed into the distinct count
 	seq    uint64
 }
 
@@ -100,8 +101,27 @@ func (k *c19) one(space string, t *tgt, in []byte, x bool) bool {
 			cons = in[:n]
 		}
 		k.report(space, t, in, n, out, diagnose(t.kind, cons), nil)
+		return true
+	}
+	// Second sentence of the statement: the listed non-canonical forms are rejected. The re-encode
+	// comparison alone cannot see non-zero padding bits, because BitString keeps the raw last octet and
+	// Marshal copies it back; so the accepted encoding is also looked at directly for the listed forms.
+	if rule := statedRuleBroken(t.kind, in[:n]); rule != "" {
+		k.report(space, t, in, n, out, rule, nil)
 	}
 	return true
+}
+
+// statedRuleBroken returns the name of a form the statement lists as rejected
+// (non-minimal integers, lengths, tags and OID sub-identifiers, non-zero padding
+// bits, indefinite lengths) if enc has it, else "".
+func statedRuleBroken(kind int, enc []byte) string {
+	switch r := diagnose(kind, enc); r {
+	case "tag-leading-0x80", "non-minimal-tag", "indefinite-length", "length-leading-zero", "non-minimal-length",
+		"non-minimal-integer", "oid-subidentifier-leading-0x80", "bitstring-nonzero-padding-bits":
+		return r
+	}
+	return ""
 }
 
 func (k *c19) report(space string, t *tgt, in []byte, n int, out []byte, rule string, err error) {
@@ -425,7 +445,7 @@ var sentinel = []byte{0xa5, 0x30, 0x00}
 
 func runC19(c *core.Ctx) {
 	defer strictMode(c)()
-	k := &c19{c: c, xcheck: true, xEvery: 7}
+	k := &c19{c: c, xcheck: true, xEvery: 7, hashEvery: c.Pick(8, 64)}
 	if len(c.Replay) > 0 {
 		k.replay()
 		return
@@ -453,22 +473,24 @@ func runC19(c *core.Ctx) {
 
 func intTargets() []*tgt {
 	return []*tgt{
-		encT[int, int]("int", kindInteger, 0x02),
 		encT[int32, int32]("int32", kindInteger, 0x02),
 		encT[int64, int64]("int64", kindInteger, 0x02),
 		encT[*big.Int, *big.Int]("*big.Int", kindInteger, 0x02),
 		encT[zasn1.Enumerated, gasn1.Enumerated]("Enumerated", kindInteger, 0x0a),
-		cbIntT[int64]("int64"), cbIntT[int32]("int32"), cbIntT[int8]("int8"),
-		cbUintT[uint64]("uint64"), cbUintT[uint8]("uint8"),
+		cbIntT[int64]("int64"),
+		cbUintT[uint64]("uint64"),
 		cbBig(),
 		cbWithTag(0x80),
 		cbEnum(),
-		// the targets below share their code path with one above: they see 1 in 16 of the enumerated contents
+		// The targets below share their code path with one above (plus a range check): they see every
+		// content of 0..2 bytes and 1 in 16 of the 3-byte contents.
+		encT[int, int]("int", kindInteger, 0x02),
+		cbIntT[int32]("int32"), cbIntT[int8]("int8"), cbUintT[uint8]("uint8"),
 		cbIntT[int]("int"), cbUintT[uint16]("uint16"), cbWithTag(0x02), cbWithTag(0x9e), cbWithTag(0x42),
 	}
 }
 
-const intSecondary = 5 // number of trailing intTargets() entries that are sub-sampled
+const intSecondary = 9 // number of trailing intTargets() entries that are sub-sampled
 
 // tlv writes tag, a DER length and content followed by the sentinel into buf.
 func tlv(buf []byte, tag byte, content []byte) []byte {
@@ -555,7 +577,7 @@ func (k *c19) integers() {
 			}
 		}
 		for _, t := range ts {
-			if k.one(space, t, tlv(buf, t.tag, content[:l]), k.xcheck) && i%8 == 0 {
+			if k.one(space, t, tlv(buf, t.tag, content[:l]), k.xcheck) && i%k.hashEvery == 0 {
 				k.c.Nontrivial(t.name, content[:l])
 			}
 		}
@@ -631,7 +653,7 @@ func (k *c19) oids() {
 			body[0] = first[rng.IntN(len(first))]
 			body[1], body[2], body[3] = byte(x>>16), byte(x>>8), byte(x)
 			for _, t := range ts {
-				if k.one(space, t, tlv(buf, t.tag, body), k.xcheck) && i%8 == 0 {
+				if k.one(space, t, tlv(buf, t.tag, body), k.xcheck) && i%k.hashEvery == 0 {
 					k.c.Nontrivial(t.name, body)
 				}
 			}
@@ -672,7 +694,7 @@ func (k *c19) oids() {
 			long = long[:12]
 		}
 		for _, t := range ts {
-			if k.one(space, t, tlv(buf, t.tag, long), k.xcheck) && i%8 == 0 {
+			if k.one(space, t, tlv(buf, t.tag, long), k.xcheck) && i%k.hashEvery == 0 {
 				k.c.Nontrivial(t.name, long)
 			}
 		}
@@ -756,7 +778,7 @@ func (k *c19) headers() {
 	k.flushTargets(space, ts)
 
 	// (2) every first octet x 0x82 hi lo for lengths from a boundary set (all <= 1024 and the edges);
-	// for tag 0x30 every one of the 65536 values; content materialised (zeros).
+	// for tag 0x30 also one in eight of the other values (thorough: all 65536); content materialised (zeros).
 	space = "header-0x82-lengths"
 	nt, mine = 0, 0
 	isBoundary := func(v int) bool {
@@ -773,7 +795,7 @@ func (k *c19) headers() {
 	var cnt int64
 	for first := 0; first < 256; first++ {
 		for v := 0; v < 65536; v++ {
-			if !fullTags[first] && !isBoundary(v) {
+			if !isBoundary(v) && !(fullTags[first] && (k.c.Thorough() || v%8 == 5)) {
 				continue
 			}
 			cnt++
@@ -942,7 +964,7 @@ func (k *c19) gentime() {
 			s = string(b)
 		}
 		for _, t := range ts {
-			if k.one(space, t, tlv(buf, t.tag, []byte(s)), k.xcheck) && i%8 == 0 {
+			if k.one(space, t, tlv(buf, t.tag, []byte(s)), k.xcheck) && i%k.hashEvery == 0 {
 				k.c.Nontrivial(t.name, s)
 			}
 		}
